@@ -27,14 +27,18 @@ PROPS = {
         "rule": "seeded generator: 9 store pairings x source length 0..80 (thorough ..400) x first index (1, small, 2^(7k), last = MaxUint64-1) x batchBytes (0, 1, negative, MinInt64, MaxInt64, around 1..4 entries, around the whole log) x cancellation point x injected GetLog/StoreLogs failure x source FirstIndex/LastIndex failure (injected, and a really closed WAL / raft-boltdb source; every pairing) x nil/buffered/unbuffered progress channel; CopyStable over 9 pairings x missing keys x extra keys x cancellation; distinct = distinct input lines",
     },
     "C07": {
-        "streams": [S("fstrace", 40, 400, vm=(8, 40), vm_maxlen=40000, timeout=3000)],
+        "streams": [S("fstrace", 40, 400, vm=(8, 40), vm_maxlen=40000, timeout=3000),
+                    S("fsfault", 70, 1200, vm=(10, 60), vm_maxlen=4000, timeout=3000)],
         "trusted": ["strace 6.1 (-f -y): complete and correctly ordered log of the traced syscalls of the child process; ordering across threads is the order in which the tracer saw the syscall stops (causally ordered calls are never swapped)",
+                    "strace fault injection (-e inject=<syscall>:error=<E>:when=<N>): the N-th invocation of the syscall in the thread returns the error and is NOT executed by the kernel (a failed call has no effect); the injected run is validated (exactly one call marked INJECTED, the one aimed at); real partial failures (an fsync that fails after writing some blocks) are not produced",
                     "the kernel/file system makes data durable on fsync/fdatasync of the file and directory entries (creation, rename, unlink) durable on fsync of the directory, fallocate zero-fills, O_EXCL is exclusive (README assumptions; this is the disk semantics `dstep` of Fs/DisciplineFacts.v, not something the check can observe)",
                     BBOLT, GO],
         "assumptions": ["workloads start in a fresh directory (every file is created inside the trace); the checker rejects traces that touch unknown segment files",
                         "a write is abstracted to its (offset, length) range; contents are not part of the trace",
-                        "C07_model_traces_ok is conditional on the caller of the fs layer syncing every written file before it acknowledges (wf_ops) -- the segment writer's sync path; the fst lines check that on the real traces"],
-        "rule": "6 fixed scenarios (create+first commit, rotation, head/tail truncation deleting files, close/reopen/append, reset of the empty first segment, oversized batch/truncate to empty) + seeded random WAL workloads (segment sizes 512..8192, appends, waits, truncations, close/reopen) run on the production fs.FS + BoltMetaDB under strace; fso: seeded fs-layer call sequences (create/openwriter/write/sync/close/delete/meta init/commit) compared event by event with the model's fs_trace; distinct = distinct input lines",
+                        "C07_model_traces_ok is conditional on the caller of the fs layer syncing every written file before it acknowledges (wf_ops) -- the segment writer's sync path; the fst lines check that on the real traces",
+                        "fault scenarios: ONE injected failure per run, at the fs layer's own syscalls on segment files, the directory and the steps of safeInitBoltDB (of bbolt's internal I/O only the first fdatasync of a run); errno EIO/ENOSPC/EMFILE (fallocate's ENOTSUP/EINTR fallback to ftruncate is not exercised); 0 < segment size <= MaxInt32",
+                        "harness conventions of the fsf child that are part of the model: one handle per name, calls without a handle issue no syscall and fail, Delete first closes the handle of that name, Load first closes a db left open"],
+        "rule": "6 fixed scenarios (create+first commit, rotation, head/tail truncation deleting files, close/reopen/append, reset of the empty first segment, oversized batch/truncate to empty) + seeded random WAL workloads (segment sizes 512..8192, appends, waits, truncations, close/reopen) run on the production fs.FS + BoltMetaDB under strace; fso: seeded fs-layer call sequences (create/openwriter/write/sync/close/delete/meta init/commit) compared event by event with the model's fs_trace; fsfault: 18 fixed fault/retry scenarios (Delete failing in syncDir then retried, Create failing in the preallocation, Sync failing on the file / directory-open / directory fsync then retried, every step of the metadata db initialisation failing once then retried, invalid calls) + seeded fs-layer call sequences with retries and invalid calls, one strace-injected failure each (7 syscalls x EIO/ENOSPC/EMFILE, position drawn from the calls of a fault-free dry run), observed syscalls incl. the failed one and the ok/err result of every call compared with fs_xtrace; distinct = distinct input lines",
     },
     "C20": {
         "streams": [S("seqapi", 150, 3000, vm=(5, 100), vm_maxlen=5000)],
